@@ -21,6 +21,7 @@ import (
 	"math/rand"
 	"os"
 	"path/filepath"
+	"perkeep.org/pkg/types/camtypes"
 	"strings"
 
 	"perkeep.org/pkg/blob"
@@ -85,7 +86,38 @@ func newEnv(wf *WorldFile, mode string) (*env, error) {
 	if err != nil {
 		return nil, err
 	}
-	if err := e.DeliverAll(bt); err != nil {
+	if mode == "build" {
+		// the live corpus is built in two instalments with a sorted enumeration in between: claims first (a
+		// camliContent claim may arrive before its file), then - after the lazily sorted permanode lists have been
+		// used once - files, directories and their parts, whose times move permanodes in those lists
+		late := func(kind string) bool {
+			switch kind {
+			case "file", "dir", "staticset", "bytes", "chunk":
+				return true
+			}
+			return false
+		}
+		for _, it := range bt.W.Items {
+			if !late(it.Kind) {
+				if err := e.Deliver(bt, it.ID); err != nil {
+					return nil, err
+				}
+			}
+		}
+		e.Await()
+		e.Ix.RLock()
+		e.Corpus.EnumeratePermanodesCreated(func(camtypes.BlobMeta) bool { return true }, true)
+		e.Corpus.EnumeratePermanodesLastModified(func(camtypes.BlobMeta) bool { return true })
+		e.Ix.RUnlock()
+		for _, it := range bt.W.Items {
+			if late(it.Kind) {
+				if err := e.Deliver(bt, it.ID); err != nil {
+					return nil, err
+				}
+			}
+		}
+		e.Await()
+	} else if err := e.DeliverAll(bt); err != nil {
 		return nil, err
 	}
 	corpus := e.Corpus
